@@ -316,15 +316,16 @@ Record sp := {
   sp_calls : nat;                            (* reload calls so far = marker of the newest configuration *)
   sp_pend : option (list nat * nat);         (* reload in progress: addresses, declared fate *)
   sp_reqs : list oreq;                       (* by request id *)
-  sp_base : list (nat * nat)                 (* socket identity seen at continuously served addresses *)
+  sp_base : list (nat * nat);                (* socket identity seen at continuously served addresses *)
+  sp_used : bool                             (* the reload in progress: its marker has been seen in a response *)
 }.
 
 Definition sp_init (a0 : list nat) : sp :=
-  {| sp_ok := true; sp_cur := 0; sp_addrs := a0; sp_calls := 0; sp_pend := None; sp_reqs := []; sp_base := [] |}.
+  {| sp_ok := true; sp_cur := 0; sp_addrs := a0; sp_calls := 0; sp_pend := None; sp_reqs := []; sp_base := []; sp_used := false |}.
 
 Definition sp_fail (p : sp) : sp :=
   {| sp_ok := false; sp_cur := sp_cur p; sp_addrs := sp_addrs p; sp_calls := sp_calls p;
-     sp_pend := sp_pend p; sp_reqs := sp_reqs p; sp_base := sp_base p |}.
+     sp_pend := sp_pend p; sp_reqs := sp_reqs p; sp_base := sp_base p; sp_used := sp_used p |}.
 
 Fixpoint lookup (a : nat) (l : list (nat * nat)) : option nat :=
   match l with
@@ -348,7 +349,7 @@ Definition spec_step (p : sp) (e : event) : sp :=
                sp_reqs := map (fun q => {| q_addr := q_addr q; q_site := q_site q; q_open := q_open q;
                                            q_allow := n :: q_allow q;
                                            q_must := q_must q && mem (q_addr q) addrs |}) (sp_reqs p);
-               sp_base := filter (fun av => mem (fst av) addrs) (sp_base p) |}
+               sp_base := filter (fun av => mem (fst av) addrs) (sp_base p); sp_used := false |}
           else sp_fail p
       end
   | ERet r =>
@@ -358,10 +359,15 @@ Definition spec_step (p : sp) (e : event) : sp :=
           if Nat.eqb r fate then
             if Nat.eqb r 0 then
               {| sp_ok := sp_ok p; sp_cur := sp_calls p; sp_addrs := addrs; sp_calls := sp_calls p;
-                 sp_pend := None; sp_reqs := sp_reqs p; sp_base := sp_base p |}
+                 sp_pend := None; sp_reqs := sp_reqs p; sp_base := sp_base p; sp_used := false |}
             else
-              {| sp_ok := sp_ok p; sp_cur := sp_cur p; sp_addrs := sp_addrs p; sp_calls := sp_calls p;
-                 sp_pend := None; sp_reqs := sp_reqs p; sp_base := sp_base p |}
+              (* the reload failed: its configuration never answered anything and never will *)
+              {| sp_ok := sp_ok p && negb (sp_used p); sp_cur := sp_cur p; sp_addrs := sp_addrs p;
+                 sp_calls := sp_calls p; sp_pend := None;
+                 sp_reqs := map (fun q => {| q_addr := q_addr q; q_site := q_site q; q_open := q_open q;
+                                             q_allow := rem (sp_calls p) (q_allow q);
+                                             q_must := q_must q |}) (sp_reqs p);
+                 sp_base := sp_base p; sp_used := false |}
           else sp_fail p
       end
   | EStart k a site =>
@@ -374,7 +380,7 @@ Definition spec_step (p : sp) (e : event) : sp :=
                                                   | None => [sp_cur p]
                                                   end;
                                        q_must := mem a (sp_addrs p) && pend_has p a |}];
-           sp_base := sp_base p |}
+           sp_base := sp_base p; sp_used := sp_used p |}
       else sp_fail p
   | EEnd k r =>
       match nth_error (sp_reqs p) k with
@@ -391,18 +397,23 @@ Definition spec_step (p : sp) (e : event) : sp :=
              sp_reqs := set_nth (sp_reqs p) k
                           {| q_addr := q_addr q; q_site := q_site q; q_open := false;
                              q_allow := q_allow q; q_must := q_must q |};
-             sp_base := sp_base p |}
+             sp_base := sp_base p;
+             sp_used := sp_used p ||
+                        match sp_pend p, r with
+                        | Some _, Some (m, _, _) => Nat.eqb m (sp_calls p)
+                        | _, _ => false
+                        end |}
       end
   | EObs a isopen sd =>
       if mem a (sp_addrs p) && pend_has p a then
         match lookup a (sp_base p) with
         | Some b =>
             {| sp_ok := sp_ok p && isopen && Nat.eqb b sd; sp_cur := sp_cur p; sp_addrs := sp_addrs p;
-               sp_calls := sp_calls p; sp_pend := sp_pend p; sp_reqs := sp_reqs p; sp_base := sp_base p |}
+               sp_calls := sp_calls p; sp_pend := sp_pend p; sp_reqs := sp_reqs p; sp_base := sp_base p; sp_used := sp_used p |}
         | None =>
             {| sp_ok := sp_ok p && isopen; sp_cur := sp_cur p; sp_addrs := sp_addrs p;
                sp_calls := sp_calls p; sp_pend := sp_pend p; sp_reqs := sp_reqs p;
-               sp_base := (a, sd) :: sp_base p |}
+               sp_base := (a, sd) :: sp_base p; sp_used := sp_used p |}
         end
       else p
   end.
